@@ -269,6 +269,8 @@ def _shard(sh: Dict[str, Any]) -> Dict[str, Any]:
             tot["paths"] += eng.paths
             tot["queries"] += eng.queries
             tot["solver_time"] += eng.solver_time
+            tot["path_exceptions"] = tot.get("path_exceptions", 0) + eng.n_exceptions
+            tot.setdefault("path_exception_samples", []).extend(eng.exceptions[:2])
             exhausted = exhausted and eng.exhausted
             for r in results:
                 extra["contexts_checked"] += r.get("n", 0)
@@ -279,6 +281,7 @@ def _shard(sh: Dict[str, Any]) -> Dict[str, Any]:
     finally:
         _lowlevel.inspect_frame = saved
     return {"paths": tot["paths"], "queries": tot["queries"], "solver_time": tot["solver_time"], "exhausted": exhausted,
+            "path_exceptions": tot.get("path_exceptions", 0), "path_exception_samples": tot.get("path_exception_samples", [])[:3],
             "inconclusive": [], "shard": sh["name"], "cex": cex, "samples": samples, "extra": extra, "reached": extra["contexts_checked"]}
 
 
